@@ -146,7 +146,22 @@ def _run(rec, case):
              sample={'edits': edits, 'a': case['a'][:400], 'b': case['b'][:400]})
     fam = ''.join('|' + e for e in edits if e.startswith('family:'))
     for sig, detail in viol[:1]:
-        rec.violation(sig + _script_features(detail) + fam, case, detail)
+        tag = _dropped_errmessage(detail, case['a'], case['b']) if 'Constraint.errmessage' in sig else ''
+        rec.violation(sig + _script_features(detail) + tag + fam, case, detail)
+
+
+def _dropped_errmessage(detail, a_text, b_text):
+    """root-cause tag: the migrated schema still holds an errmessage that A states explicitly,
+    and the message the target has is one that B does not state (in B the constraint inherits
+    the message of its abstract constraint).  A *changed* explicit message is not tagged."""
+    import re
+    m = re.search(r"field errmessage: '((?:[^'\\\\]|\\\\.)*)' != '((?:[^'\\\\]|\\\\.)*)'", detail)
+    if not m:
+        return ''
+    had = "errmessage := '" + m.group(1) + "'"
+    want = "errmessage := '" + m.group(2) + "'"
+    ok = had in a_text and had not in b_text and want not in b_text
+    return '|explicit-errmessage-dropped' if ok else ''
 
 
 def _script_features(detail):
